@@ -58,13 +58,13 @@ func TestCheck(t *testing.T) {
 
 	specs := allSpecs()
 	r.Rule(fmt.Sprintf("case i probes cell i mod %d of the table boundary×operation×value-kind×fork (every cell the same number of times) with a value from charon's eth2 fuzzer seeded by the case PRNG: "+
-		"(a) hand in, scribble the caller's copy, read; (b) two readers / two subscribers; (c) scribble one result, read again / re-store; (d) the same from 4–8 goroutines with one mutating owner; "+
+		"(a) hand in, scribble the caller's copy, read; (b) two readers / 2–5 subscribers of one fan-out; (c) scribble one result, read again / re-store; (d) the same from 4–8 goroutines with one mutating owner; (e) 2–6 readers blocked on the key (confirmed from the goroutine dump) when one store resolves them together, plus late readers, one blocked reader scribbles its copy; "+
 		"non-trivial = the probed values reach at least one piece of mutable memory (pointer, slice backing, map) and at least the hand-in and the two-observer phases ran; distinct = hash(cell, deep digest of the value, goroutine count)", len(specs)))
 	r.Assume("reflection walker (harness/c18/alias) sees all mutable memory of the workflow types: pointers, slices, maps, unexported fields via reflect.NewAt; strings/funcs/chans are treated as immutable; checked by alias's own unit tests and by mutants")
 	r.Assume("content equality is judged on the core JSON encoding (plus SSZ-independent deep digest between two reads of the same kind); fields no encoding carries (VersionedProposal.ConsensusValue/ExecutionValue) are only covered by the overlap oracle and the deep digest")
 	r.Assume("the harness-supplied Deadliner schedules every expiring duty and never expires one; beacon-node, DutyDB/AggSigDB inputs of fetcher and the sigagg verify function are harness stubs")
 	r.Assume("values are produced by testutil.NewEth2Fuzzer (1–2 elements per list); a fresh equal copy is made by the harness's own reflective DeepCopy, never by charon's Clone")
-	r.Assume("lost wake-ups of readers that wait before a store are property C06/C17's subject: in the concurrent phase AggSigDB readers (and the non-blocking PubKeyByAttestation) only read after a store of their own goroutine returned")
+	r.Assume("readers are taken to be blocked before a store when the runtime's goroutine dump shows each of them parked inside the component's Await (plus, for the channel-based aggsigdb.MemDB, an answered sentinel query sent after them through the same FIFO channel); the non-blocking PubKeyByAttestation is only queried after a store")
 	r.Assume("the beacon-client → fetcher/scheduler intake is not a boundary the statement names: response objects of the beacon stub are only scribbled after the component finished using them; that the early-fetch cache of the fetcher keeps pointers into the beacon response is counted as information (info_fetchonly_cache_aliases_beacon_response)")
 	r.RacePkgs(true, "core/dutydb", "core/parsigdb", "core/aggsigdb", "core/sigagg", "core/fetcher", "core/scheduler", "core/validatorapi")
 	r.Require("probes", 200)
@@ -72,12 +72,14 @@ func TestCheck(t *testing.T) {
 	r.Require("content_checks", 2000)
 	r.Require("concurrent_probes", 100)
 	r.Require("cells_covered", int64(len(specs)))
+	r.Require("blocked_reader_probes_confirmed_k>=2", 300)
 	r.Set("cells", len(specs))
 
 	n := r.N(len(specs)*5, len(specs)*40)
 	r.Cases(n, 0, func(c *kit.Case) {
 		sp := specs[c.Idx%len(specs)]
 		pc := &probe{c: c, r: r, sp: sp, rng: c.Rng, seed: c.Rng.Int63()}
+		pc.nsubs = 2 + c.Rng.Intn(4) // subscribers per fan-out: 2..5 (one write resolves all of them)
 		t0 := time.Now()
 		func() {
 			defer func() {
@@ -104,11 +106,12 @@ type finding struct {
 }
 
 type probe struct {
-	c    *kit.Case
-	r    *kit.Run
-	sp   spec
-	rng  interface{ Intn(int) int }
-	seed int64
+	c     *kit.Case
+	r     *kit.Run
+	sp    spec
+	rng   interface{ Intn(int) int }
+	seed  int64
+	nsubs int
 
 	mu           sync.Mutex
 	findings     []finding
@@ -289,6 +292,9 @@ func (pc *probe) finish() {
 	cell := pc.sp.Comp + "/" + pc.sp.Op + "/" + pc.sp.Label
 	r.Seen("cells_probed", cell)
 	r.Seen("boundaries", pc.sp.Comp+"/"+pc.sp.Op)
+	if strings.Contains(pc.sp.Op, "subscribers") || pc.sp.Comp == "scheduler" {
+		r.Seen("subscribers_per_fanout", fmt.Sprint(pc.nsubs))
+	}
 	r.Seen("value_kinds", pc.sp.Label)
 	r.Count("probes", 1)
 	r.Count("probes:"+pc.sp.Comp, 1)
@@ -439,8 +445,11 @@ type storeOps struct {
 	read   func(ctx context.Context) (any, error)  // one reader / one later query
 	expect any                                     // what a read must show (derived from the original)
 	close  func()
-	// noWaiters: in the concurrent phase no reader starts waiting before a store (C17 covers that)
+	// noWaiters: the read does not block (PubKeyByAttestation): no reader is started before a store
 	noWaiters bool
+	// sentinel (optional) performs a query for another, already stored key through the same
+	// hand-over channel as read and returns when it was answered (see blocked_test.go)
+	sentinel func(ctx context.Context) error
 }
 
 // runStore drives phases (a)–(d) against a store boundary. orig is the original input (never
@@ -533,6 +542,12 @@ func (pc *probe) runStore(orig any, mk func() storeOps) {
 		return
 	}
 	pc.runStoreConcurrent(orig, want, mk)
+
+	// (e) several readers blocked on the key when one write resolves them together
+	if pc.aliasingEstablished() {
+		return
+	}
+	pc.runStoreBlocked(orig, want, mk)
 }
 
 func (pc *probe) runStoreConcurrent(orig any, want string, mk func() storeOps) {
